@@ -204,12 +204,13 @@ func c11Decode(p map[string]int, i int) faultCase {
 		}
 		i -= n
 	}
-	s := []string{"h1", "h2"}[i/2%2]
-	return faultCase{Kind: "idle", Session: s, Timeout: []int{2, 30}[i%2]}
+	s := []string{"h1", "h2", "h2", "h2"}[i/2%4]
+	how := []string{"", "", "client_rst", "server_rst"}[i/2%4]
+	return faultCase{Kind: "idle", Session: s, How: how, Timeout: []int{2, 30}[i%2]}
 }
 
 func c11Count(p map[string]int) int {
-	return 2*(p["h1_total"]+1) + 2*(p["h2_total"]+1) + 2*p["h1_hs"] + 2*p["h2_hs"] + 4
+	return 2*(p["h1_total"]+1) + 2*(p["h2_total"]+1) + 2*p["h1_hs"] + 2*p["h2_hs"] + 8
 }
 
 func c11Case(p map[string]int, i int) *Case {
@@ -243,7 +244,26 @@ func c11Case(p map[string]int, i int) *Case {
 		plan.Args = []string{"-timeout-http-idle", fmt.Sprintf("%ds", fc.Timeout)}
 		// serve the two requests, then stay idle until the proxy hangs up
 		steps := cp.Steps[:len(cp.Steps)-1]
-		cp.Steps = append(append([]Step{}, steps...), Step{Kind: "readeof"}, Step{Kind: "close"})
+		cp.Steps = append([]Step{}, steps...)
+		switch fc.How {
+		case "client_rst":
+			// the last stream to close is one the client cancels while its handler is parked
+			plan.Backend.Resp = map[string]*RespPlan{"c0-r2": {Status: 200, Body: []byte("never"), Park: true}}
+			enc := NewHEnc()
+			enc.enc.SetMaxDynamicTableSize(0)
+			r2 := ReqSpec{Tag: "c0-r2", Method: "GET", Path: "/c", Host: "fixed.verif.test"}
+			fs := H2RequestFrames(enc, 5, r2, nil, nil, nil, nil)
+			cp.Steps = append(cp.Steps, Step{Kind: "write", Pieces: [][]byte{FramesBytes(fs...)}}, Step{Kind: "write", Pieces: [][]byte{FramesBytes(RSTFrame(5, ErrCancel))}, WhenQuiet: true})
+		case "server_rst":
+			// the last stream to close is one the server resets (more DATA than the declared content-length)
+			enc := NewHEnc()
+			enc.enc.SetMaxDynamicTableSize(0)
+			fields := [][2]string{{":method", "POST"}, {":scheme", "https"}, {":authority", "fixed.verif.test"}, {":path", "/d"}, {"x-tag", "c0-r2"}, {"content-length", "2"}}
+			fs := HeadersFrames(5, enc.Block(fields), false, nil, -1, nil)
+			fs = append(fs, DataFrame(5, []byte("too much"), true, -1))
+			cp.Steps = append(cp.Steps, Step{Kind: "write", Pieces: [][]byte{FramesBytes(fs...)}}, Step{Kind: "h2await", Streams: []uint32{5}})
+		}
+		cp.Steps = append(cp.Steps, Step{Kind: "readeof"}, Step{Kind: "close"})
 		c.Oracle = func(w *World, c *Case) {
 			cl := w.Clients[0]
 			T := time.Duration(fc.Timeout) * time.Second
@@ -253,12 +273,12 @@ func c11Case(p map[string]int, i int) *Case {
 			} else if took < T || took > T+2*time.Second {
 				w.Violate("idle_timeout_time", "idle_timeout_time", "%s: idle connection closed after %v, configured idle timeout %v", c.Summary, took, T)
 			}
-			if len(w.BackReqs) != 2 {
+			if len(w.BackReqs) < 2 {
 				w.Violate("harness", "harness", "idle case: %d requests served", len(w.BackReqs))
 			}
 			checkReleased(w, c.Summary)
 		}
-		c.Nontrivial = func(w *World, c *Case) bool { return len(w.BackReqs) == 2 }
+		c.Nontrivial = func(w *World, c *Case) bool { return len(w.BackReqs) >= 2 }
 	}
 	plan.Clients = []*ClientPlan{cp}
 	return c
@@ -327,7 +347,8 @@ func panicOccurrences(p map[string]int, s, site string) int {
 	case "getconfig", "getcert":
 		return 1
 	case "connstate":
-		return 4
+		// new, active, idle, active, idle, closed (+ hijack-free HTTP/2 transitions): a few spare
+		return 9
 	}
 	return 2
 }
@@ -354,8 +375,12 @@ func c10Decode(p map[string]int, i int) c10Fault {
 			return c10Fault{Kind: "deadline", Session: s, Idx: 1 + i}
 		}
 		i -= n
+	}
+	// the callback panics of both sessions sit at the very end of the index space
+	// (the quick tier always runs the last 64 indexes)
+	for _, s := range []string{"h1", "h2"} {
 		for _, site := range panicSites {
-			n = panicOccurrences(p, s, site)
+			n := panicOccurrences(p, s, site)
 			if i < n {
 				return c10Fault{Kind: "panic", Session: s, How: site, Idx: 1 + i}
 			}
@@ -396,6 +421,7 @@ func c10Case(p map[string]int, i int) *Case {
 		plan.Faults.Front[0] = ConnFaults{DeadlineErrAt: fc.Idx}
 	case "panic":
 		plan.Faults.PanicAt[fc.How] = fc.Idx
+		plan.Faults.PanicAddr = tcpAddr(cp.Addr).String()
 		// the panicking callback must belong to the faulty connection: the control
 		// clients start only after it has finished
 		c1.StartAfterDone = []int{0}
@@ -439,7 +465,22 @@ func drawC10(t *rapid.T) *Case {
 		}
 		nm := rapid.IntRange(1, 6).Draw(t, "nmut")
 		for k := 0; k < nm; k++ {
-			switch rapid.IntRange(0, 3).Draw(t, "mutkind") {
+			switch rapid.IntRange(0, 5).Draw(t, "mutkind") {
+			case 4, 5:
+				// a frame whose length / padding / flags sit on a parser boundary
+				typ := uint8(rapid.IntRange(0, 9).Draw(t, "bt"))
+				ln := rapid.IntRange(0, 12).Draw(t, "bl")
+				pl := make([]byte, ln)
+				for i := range pl {
+					pl[i] = byte(rapid.IntRange(0, 255).Draw(t, "bb"))
+				}
+				if ln > 0 {
+					// pad-length octet around the frame length
+					pl[0] = byte([]int{0, ln - 1, ln, ln + 1, 255, ln - 2 + 256}[rapid.IntRange(0, 5).Draw(t, "bpad")] & 0xff)
+				}
+				flags := []uint8{0x8, 0x28, 0x20, 0x9, 0x2d, 0x0, 0x4, 0x1}[rapid.IntRange(0, 7).Draw(t, "bf")]
+				sid := uint32(rapid.IntRange(0, 5).Draw(t, "bs"))
+				stream = append(stream, Frame{Type: typ, Flags: flags, Stream: sid, Payload: pl}.Bytes()...)
 			case 0: // flip a byte
 				pos := rapid.IntRange(0, len(stream)-1).Draw(t, "mpos")
 				stream[pos] ^= byte(rapid.IntRange(1, 255).Draw(t, "mxor"))
